@@ -276,6 +276,25 @@ Proof.
   apply filter_In in Hin. destruct Hin as [Hin Hf]. exists t, a. auto.
 Qed.
 
+(* finalRootKeys since the fix: a sub-list of the Valid|Missing keys, none of tombstoned material *)
+Lemma published_in ksk tombs k :
+  In k (published ksk tombs) ->
+  exists t a, In (t, a) ksk /\ is_trusted_st a = true /\ ta_key a = k /\ mem (ta_mat a) tombs = false.
+Proof.
+  unfold published. intros H. apply trusted_keys_in in H. destruct H as (t & a & Hin & Ht & Hk).
+  apply filter_In in Hin. destruct Hin as [Hin Hf]. cbn in Hf. exists t, a. repeat split; try assumption.
+  destruct (mem (ta_mat a) tombs); [discriminate|reflexivity].
+Qed.
+
+Lemma published_sub ksk tombs k : In k (published ksk tombs) -> In k (trusted_keys ksk).
+Proof.
+  intros H. apply published_in in H. destruct H as (t & a & Hin & Ht & <- & _).
+  unfold trusted_keys. apply in_map_iff. exists (t, a). split; [reflexivity|]. apply filter_In. split; assumption.
+Qed.
+
+Lemma published_not_tomb ksk tombs k : In k (published ksk tombs) -> mem (k_mat k) tombs = false.
+Proof. intros H. apply published_in in H. destruct H as (t & a & _ & _ & <- & Hm). exact Hm. Qed.
+
 Lemma inv_B_trusted ksk k : inv_B ksk -> In k (trusted_keys ksk) -> k_mat k <> m.
 Proof.
   intros Hb Hin E. apply trusted_keys_in in Hin. destruct Hin as (t & a & Hin & Ht & <-).
@@ -336,7 +355,8 @@ Proof.
   intros Hb Hl. unfold tail. cbn [r_live].
   destruct (negb (negb (f_twrite fl)) && negb (negb (f_swrite fl))).
   - destruct (p_newrev s); [intros []|apply Hl].
-  - destruct (negb (f_twrite fl)); apply inv_B_trusted; [apply inv_B_filter|]; exact Hb.
+  - intros H. apply published_sub in H. revert H.
+    destruct (negb (f_twrite fl)); apply inv_B_trusted; [apply inv_B_filter|]; exact Hb.
 Qed.
 
 (* ---- one run *)
